@@ -23,6 +23,7 @@ import (
 
 	"github.com/blevesearch/bleve/v2"
 	"github.com/blevesearch/bleve/v2/index/scorch"
+	"github.com/blevesearch/bleve/v2/search/collector"
 
 	"verif/mc"
 )
@@ -217,64 +218,97 @@ func boolsOver(cl []*Q, add func(*Q)) {
 	}
 }
 
-// baseQueries: compounds over 1..3 leaf clauses. two = the compounds over ≤ 2 clauses (they
-// are also what gets wrapped into larger queries).
-func baseQueries(quick bool) (all []*Q, two []*Q) {
+// six leaves, one per field, values alternating: the reduced clause alphabet
+func leaves6() []*Q {
+	return []*Q{T("name", "x"), T("items.k", "x"), T("items.v", "y"), T("items.subs.a", "x"), T("items.subs.b", "y"), T("tags.t", "x")}
+}
+
+// baseQueries: compounds over 1..3 leaf clauses.
+//
+//	1 and 2 clauses: every ordered choice of the 12 leaves under every operator form;
+//	3 clauses, conjunction / disjunction: quick every multiset of leaves, thorough every ordered triple;
+//	3 clauses, boolean (27 role assignments × should-min): quick multisets over the six-leaf
+//	alphabet, thorough multisets over all 12 leaves.
+func baseQueries(quick bool) []*Q {
 	ls := leaves()
-	var s, s2 qset
+	var s qset
 	s.add(&Q{Kind: "all"})
 	for _, a := range ls {
 		s.add(a)
 	}
-	add2 := func(q *Q) { s.add(q); s2.add(q) }
 	for _, a := range ls {
-		add2(&Q{Kind: "conj", Subs: []*Q{a}})
-		add2(&Q{Kind: "disj", Subs: []*Q{a}, Min: 0})
-		boolsOver([]*Q{a}, add2)
+		s.add(&Q{Kind: "conj", Subs: []*Q{a}})
+		s.add(&Q{Kind: "disj", Subs: []*Q{a}, Min: 0})
+		boolsOver([]*Q{a}, s.add)
 	}
 	for _, a := range ls {
 		for _, b := range ls {
-			add2(&Q{Kind: "conj", Subs: []*Q{a, b}})
+			s.add(&Q{Kind: "conj", Subs: []*Q{a, b}})
 			for m := 0; m <= 2; m++ {
-				add2(&Q{Kind: "disj", Subs: []*Q{a, b}, Min: m})
+				s.add(&Q{Kind: "disj", Subs: []*Q{a, b}, Min: m})
 			}
-			boolsOver([]*Q{a, b}, add2)
+			boolsOver([]*Q{a, b}, s.add)
 		}
 	}
 	for i, a := range ls {
 		for j, b := range ls {
 			for k, c := range ls {
 				if quick && !(i <= j && j <= k) {
-					continue // unordered triples in the quick tier
+					continue
 				}
 				s.add(&Q{Kind: "conj", Subs: []*Q{a, b, c}})
 				for m := 0; m <= 2; m++ {
 					s.add(&Q{Kind: "disj", Subs: []*Q{a, b, c}, Min: m})
 				}
+			}
+		}
+	}
+	bl := ls
+	if quick {
+		bl = leaves6()
+	}
+	for i, a := range bl {
+		for j, b := range bl {
+			for k, c := range bl {
 				if i <= j && j <= k {
 					boolsOver([]*Q{a, b, c}, s.add)
 				}
 			}
 		}
 	}
-	return s.list, s2.list
+	return s.list
 }
 
-// wrapped puts every ≤2-clause compound in as a clause of a larger query.
-func wrapped(two []*Q, quick bool) []*Q {
+// wrapped puts two-clause compounds in as a clause of a larger query (10 forms). Quick: the
+// compounds over ordered pairs of the six-leaf alphabet, wrapped with 4 leaves; thorough:
+// the compounds over ordered pairs of all 12 leaves, wrapped with the six-leaf alphabet.
+func wrapped(quick bool) []*Q {
+	var inner qset
+	il := leaves()
+	wl := leaves6()
+	if quick {
+		il = leaves6()
+		wl = []*Q{T("name", "x"), T("items.k", "y"), T("items.subs.a", "x"), T("tags.t", "x")}
+	}
+	for _, a := range il {
+		for _, b := range il {
+			inner.add(&Q{Kind: "conj", Subs: []*Q{a, b}})
+			inner.add(&Q{Kind: "disj", Subs: []*Q{a, b}, Min: 1})
+			inner.add(&Q{Kind: "disj", Subs: []*Q{a, b}, Min: 2})
+			boolsOver([]*Q{a, b}, func(q *Q) {
+				if len(q.Should) > 0 && q.SMin == 0 && len(q.Must) > 0 {
+					return // optional should: same matches as without it
+				}
+				if len(q.Must) == 2 && quick {
+					return // must{a,b} alone: covered by conj(a,b) wrappers in the quick tier
+				}
+				inner.add(q)
+			})
+		}
+	}
 	var s qset
-	ls := leaves()
-	for _, in := range two {
-		if in.nodes() < 3 {
-			continue // one-clause compounds are covered as base queries
-		}
-		if quick && in.Kind == "bool" && len(in.Should) > 0 && in.SMin == 0 && len(in.Must) > 0 {
-			continue // optional should: same matches as without it
-		}
-		for wi, w := range ls {
-			if quick && wi%2 == 1 && in.Kind != "conj" {
-				continue // quick tier: value y wrappers only around conjunctions
-			}
+	for _, in := range inner.list {
+		for _, w := range wl {
 			s.add(&Q{Kind: "conj", Subs: []*Q{in, w}})
 			s.add(&Q{Kind: "conj", Subs: []*Q{w, in}})
 			s.add(&Q{Kind: "disj", Subs: []*Q{w, in}, Min: 1})
@@ -364,13 +398,13 @@ func (b *book) flush(r *mc.Run) {
 
 const (
 	layOne   = iota // the whole corpus in one batch: one segment
-	layChurn        // batches of 5 parents, a ghost parent with elements deleted afterwards,
+	layChurn        // 4 batches, a ghost parent with elements deleted afterwards,
 	// the first parent indexed with other content and then updated, the last parent
 	// deleted and re-indexed
 	nLayouts
 )
 
-var layoutName = []string{"one-batch", "5-per-batch+churn"}
+var layoutName = []string{"one-batch", "4-batches+churn"}
 
 type corpus struct {
 	name  string
@@ -410,9 +444,10 @@ func buildCorpus(c *corpus, nested bool, layout int) bleve.Index {
 	case layChurn:
 		chk(idx.Index("ghost", ghost.Data()))
 		chk(idx.Index(c.ids[0], ghost.Data()))
-		for lo := 0; lo < len(c.docs); lo += 5 {
+		per := (len(c.docs) + 3) / 4
+		for lo := 0; lo < len(c.docs); lo += per {
 			b := idx.NewBatch()
-			for i := lo; i < lo+5 && i < len(c.docs); i++ {
+			for i := lo; i < lo+per && i < len(c.docs); i++ {
 				if i == 0 {
 					continue
 				}
@@ -618,6 +653,13 @@ func (ck *checker) evalQ(c *corpus, b built, q *Q, score string, want []Tri) {
 			class := symptomClass("non-parent-hit", q, nested)
 			ex := &example{cost: [3]int{q.nodes(), c.internal + 5, len(q.String())}, key: q.String() + score}
 			if ck.bk.improves(class, ex) {
+				// the hit id of an element starts with its parent's id: try that parent alone
+				// (the single-document search reports the smaller example itself)
+				if k := strings.Index(id, "_$"); k > 0 {
+					if pi, ok := c.pos[id[:k]]; ok {
+						ck.confirmAlone(q, c.docs[pi], nested, score, false)
+					}
+				}
 				ex.replay = where()
 				ex.replay["foreign_hit"] = id
 				ex.detail = fmt.Sprintf("%s: hit %q is not a live parent document %s", q, id, brief(ex.replay))
@@ -638,8 +680,8 @@ func (ck *checker) evalQ(c *corpus, b built, q *Q, score string, want []Tri) {
 func partQ(r *mc.Run, ck *checker) {
 	quick := r.Quick()
 	fams := families(quick)
-	base, two := baseQueries(quick)
-	wr := wrapped(two, quick)
+	base := baseQueries(quick)
+	wr := wrapped(quick)
 	qs := append(append([]*Q{}, base...), wr...)
 	for _, q := range qs {
 		q.prep()
@@ -705,7 +747,7 @@ func partQ(r *mc.Run, ck *checker) {
 			}
 		}
 	}()
-	const chunk = 2048
+	const chunk = 512
 	type job struct {
 		c      *corpus
 		lo, hi int
@@ -736,19 +778,25 @@ func partQ(r *mc.Run, ck *checker) {
 				}
 			}
 			for _, b := range j.c.built {
-				// score option: the churn layout runs unscored, the one-segment layout scored
-				// (quick: alternating per query; thorough: both)
+				// quick: the one-segment nested index sees every query (score alternating), the
+				// other three indexes every second / fourth query; thorough: every index sees
+				// every query, the one-segment ones under both score options
 				switch {
-				case b.layout == layChurn:
-					if quick && !b.nested && qi%4 != 0 {
-						continue
-					}
-					ck.evalQ(j.c, b, q, "none", want[b.nested])
-				case quick:
+				case quick && b.nested && b.layout == layOne:
 					ck.evalQ(j.c, b, q, []string{"", "none"}[qi%2], want[b.nested])
-				default:
+				case quick && b.nested:
+					if qi%2 == 0 {
+						ck.evalQ(j.c, b, q, []string{"none", ""}[qi/2%2], want[b.nested])
+					}
+				case quick:
+					if qi%4 == 1+2*b.layout {
+						ck.evalQ(j.c, b, q, []string{"", "none"}[qi/4%2], want[b.nested])
+					}
+				case b.layout == layOne:
 					ck.evalQ(j.c, b, q, "", want[b.nested])
 					ck.evalQ(j.c, b, q, "none", want[b.nested])
+				default:
+					ck.evalQ(j.c, b, q, []string{"none", ""}[qi%2], want[b.nested])
 				}
 			}
 		}
@@ -1200,13 +1248,26 @@ func Run(r *mc.Run) {
 		"a disjunction minimum of 0 means 1 (bleve's documented behaviour); should-min 0 next to a must clause makes the should clauses optional",
 		"scorch background persister/merger are made deterministic for the disk histories by holding merges at EventKindPreMergeCheck and waiting for CurRootEpoch == LastPersistedEpoch (== LastMergedEpoch)")
 
+	// request sizes must exceed the number of index-internal documents (so that nothing is cut
+	// off when elements are wrongly returned); the collector's preallocation is capped through
+	// its public tuning variable so that such requests stay cheap
+	defer func(v int) { collector.PreAllocSizeSkipCap = v }(collector.PreAllocSizeSkipCap)
+	collector.PreAllocSizeSkipCap = 8
+	t0 := time.Now()
+	lap := func(name string) {
+		r.Note("wall_s_"+name, time.Since(t0).Seconds())
+		t0 = time.Now()
+	}
 	partQ(r, ck)
+	lap("part_Q")
 	states := &stateSet{m: map[string]bool{}}
 	if !r.Expired() {
 		partHMem(r, ck, states)
+		lap("part_H_memory")
 	}
 	if !r.Expired() {
 		partHDisk(r, ck, states)
+		lap("part_H_disk")
 	}
 	ck.bk.flush(r)
 }
